@@ -154,6 +154,7 @@ def check_C01(ctx):
     paths += ctx.run_driver(b, 'corners_z', shards=16, extra='funs=mpz_mul:mpz_addmul', timeout=900)       # every pair of corner-alphabet operands x signs
     # the internal multiplication kernels called directly, each against the contract its own source states (SemK1.tla)
     for d in ('k1_mullow', 'k1_sqr', 'k1_mulmid', 'k1_mulmod'): paths += ctx.run_driver(b, d, shards=8, timeout=900)
+    paths += ctx.run_driver(b, 'c01_pieces', shards=8, timeout=900)        # piece-structured corner operands in each Toom regime
     paths += ctx.run_driver(b, 'c01_fft', shards=min(16, max(1, len(fftlines))), extra=f'fft={ff}', timeout=1500)
     ctx.validate(paths)
     pp = ctx.run_driver(b, 'c01_mul1', shards=1, extra='pure', timeout=300) + ctx.run_driver(b, 'c01_mpz', shards=1, extra='pure', timeout=300)
@@ -546,7 +547,7 @@ def check_C19(ctx):
 CPU_VARIANTS = ['netburst', 'k8', 'k10', 'k102', 'bulldozer', 'piledriver', 'bobcat', 'core2', 'penryn', 'nehalem', 'westmere', 'sandybridge',
                 'ivybridge', 'haswell', 'haswellavx', 'broadwell', 'skylake', 'skylakeavx', 'atom']
 OPTION_VARIANTS = ['none', 'fat', 'assert', 'alloca-debug', 'alloca-reentrant']
-BATTERY = [('k1_mullow', 1), ('k1_mulmid', 1), ('k1_redc', 1), ('k1_mulmod', 1), ('k2_div1', 1), ('k2_sbdc', 1), ('k2_bdiv', 1), ('c14_kern', 2), ('c03_mpn', 2), ('c01_mul1', 1), ('c02_tdiv', 2), ('c02_div1', 1), ('c10_mpn', 1), ('c09_mpn', 1), ('c07_mpn', 1), ('c06_mpn', 1),
+BATTERY = [('c01_pieces', 1), ('k1_mullow', 1), ('k1_mulmid', 1), ('k1_redc', 1), ('k1_mulmod', 1), ('k2_div1', 1), ('k2_sbdc', 1), ('k2_bdiv', 1), ('c14_kern', 2), ('c03_mpn', 2), ('c01_mul1', 1), ('c02_tdiv', 2), ('c02_div1', 1), ('c10_mpn', 1), ('c09_mpn', 1), ('c07_mpn', 1), ('c06_mpn', 1),
            ('c01_mpz', 1), ('c02_mpz', 2), ('c07_mpz', 2), ('c08_powm', 2), ('hist', 2)]
 
 
